@@ -19,7 +19,7 @@ DEMO="$M/demo_test.go"
 DIR=$(head -5 "$DEMO" | grep -oE '(neat|experiment|examples)[A-Za-z0-9_/]*' | head -1)
 if [ -z "$DIR" ] || [ ! -d "$WT/$DIR" ]; then
   PKG=$(grep -m1 '^package ' "$DEMO" | awk '{print $2}')
-  case "$PKG" in genetics) DIR=neat/genetics;; network) DIR=neat/network;; math) DIR=neat/math;; neat) DIR=neat;; experiment) DIR=experiment;; utils) DIR=neat/utils;; *) DIR=neat/genetics;; esac
+  case "$PKG" in genetics) DIR=neat/genetics;; network) DIR=neat/network;; math) DIR=neat/math;; neat) DIR=neat;; experiment) DIR=experiment;; utils) DIR=neat/utils;; main) DIR=.;; *) DIR=neat/genetics;; esac
 fi
 DIR=${DIR%/}
 RUN=$(grep -m1 -oE 'func (Test[A-Za-z0-9_]+)' "$DEMO" | awk '{print $2}')
